@@ -15,7 +15,7 @@ REQUIRED = ["every representation gives a valid bracket of the same distance", "
             "disconnected: warning, no exception, bracket for a largest component"]
 RULE = ("one abstract graph (C05 families, n<=8 so that the exact oracle applies) in many concrete forms: nested lists, dense "
         "int/bool/float(weighted) arrays, CSR/CSC/COO/LIL, upper-triangular / lower-triangular / symmetric fill, sparse forms with "
-        "explicitly stored zeros, random relabelling; collections of 2-6 mixed-format graphs; disconnected unions (2-4 components, "
+        "explicitly stored zeros, random relabelling; collections of 2-6 mixed-format graphs; a few 100-300 vertex graphs (sizes and diameters across the int8/int16 boundaries) against the one-point graph, where the exact distance is diam/2; disconnected unions (2-4 components, "
         "isolated vertices, ties for the largest component); RNG seeded per call. non-trivial = non-isomorphic pair with >=3 distinct "
         "forms exercised, or a disconnected input; distinct = digest of the abstract graphs")
 ASSUMPTIONS = ["exact distance from the C05 backtracking oracle on my own BFS metric",
@@ -89,8 +89,37 @@ def disconnected_union(rng, nmax=9):
     return A
 
 
+def large_case(ctx, k, rng):
+    """a large graph (sizes and diameters across the int8 / int16 boundaries of the distance tables) in a random
+    representation against the one-point graph: the exact distance is diam/2 (every map onto a point has distortion diam)"""
+    n = int(rng.choice([100, 127, 128, 129, 130, 150, 200, 255, 256, 257, 300]))
+    fam = str(rng.choice(["path", "cycle", "tree", "caterpillar", "lollipop", "gnp"]))
+    A = {"path": lambda: OM.path(n), "cycle": lambda: OM.cycle(n), "tree": lambda: OM.random_tree(rng, n),
+         "caterpillar": lambda: OM.caterpillar(n - n // 4, [1] * (n // 4)), "lollipop": lambda: OM.lollipop(5, n - 5),
+         "gnp": lambda: OM.gnp_connected(rng, n, 3.0 / n)}[fam]()
+    A, _ = OM.relabel(rng, A)
+    D = OM.bfs_metric(A)
+    diam = max(map(max, D))
+    fA = str(rng.choice(FORMS)); fill = str(rng.choice(["upper", "lower", "sym"]))
+    point = [[[0]], np.zeros((1, 1), dtype=int), sps.csr_matrix((1, 1))][int(rng.integers(0, 3))]
+    ctx.begin(k, "large/" + fam, {"family": fam, "n": n, "diameter": diam, "form": [fA, fill]})
+    ctx.seen("large sizes", n)
+    try:
+        swap = rng.random() < 0.5
+        ra = represent(rng, A, fA, fill)
+        (lb, ub), _ = call(ctx, *((point, ra) if swap else (ra, point)), seed=int(rng.integers(0, 2 ** 31)))
+        ctx.check("every representation gives a valid bracket of the same distance", float(lb) <= diam / 2 <= float(ub),
+                  lower=lb, upper=ub, true=diam / 2, n=n, family=fam, form=[fA, fill])
+        ctx.check("large graph vs point: both bounds equal diam/2", float(lb) == diam / 2 == float(ub), lower=lb, upper=ub, true=diam / 2)
+    except Exception as e:
+        ctx.exception("every representation gives a valid bracket of the same distance", e, n=n, family=fam, form=[fA, fill])
+    ctx.mark_nontrivial("large", fam, n, fA, fill, A.tolist() if n <= 130 else [fam, n, int(A.sum())])
+
+
 def run_case(ctx, k, rng):
     scen = int(rng.integers(0, 10))
+    if rng.random() < 0.06:
+        return large_case(ctx, k, rng)
     if scen <= 4:
         forms_case(ctx, k, rng)
     elif scen <= 6:
